@@ -480,6 +480,21 @@ def equal(kind: str, a, b) -> tuple[bool, str]:
             return same and type(a) is type(b), "representation fields / n_qudits"
         if kind == "state":
             return (a == b) and a.n_qudits == b.n_qudits and tuple(a.eigenstates) == tuple(b.eigenstates), "state / n_qudits / eigenstates"
+        if a == b:
+            # "in every field": == of layouts compares the traps only, not the slug
+            def slugs(kind, o):
+                if kind == "layout":
+                    return [o.slug]
+                if kind == "register":
+                    lay = getattr(o, "layout", None)
+                    return [None if lay is None else lay.slug, None if lay is None else tuple(o._layout_info.trap_ids)]
+                if kind == "device":
+                    return [lay.slug for lay in getattr(o, "pre_calibrated_layouts", ())] + sorted(getattr(o, "calibrated_register_layouts", {}))
+                return []
+
+            sa, sb = slugs(kind, a), slugs(kind, b)
+            if sa != sb:
+                return False, f"== holds but layout slugs / trap ids differ: {sa} vs {sb}"
         return a == b, "=="
     except Exception as e:  # noqa: BLE001
         return False, f"comparison raised {type(e).__name__}: {str(e)[:80]}"
@@ -491,7 +506,11 @@ def gen_history(rng: random.Random, profile: dict) -> list:
     hist = []
     live = 0
     for _ in range(n):
-        k = G.wpick(rng, {"construct": 5 if live < 8 else 1, "restore": 3 if live else 0, "convert": 1.2 if live else 0, "use": 2 if live else 0, "drop": 0.7 if live > 2 else 0, "reuse": 0.5 if live < 8 else 0})
+        k = G.wpick(rng, {"construct": 5 if live < 8 else 1, "restore": 3 if live else 0, "convert": 1.2 if live else 0, "use": 2 if live else 0, "drop": 0.7 if live > 2 else 0, "reuse": 0.5 if live < 8 else 0, "mutate": 0.8 if live else 0})
+        if k == "mutate":
+            # the one documented in-place mutator: VirtualDevice.change_rydberg_level
+            hist.append({"op": "mutate", "pick": rng.random(), "level": G.pick(rng, [50, 61, 70, 88]), "actor": rng.randrange(3)})
+            continue
         if k == "reuse":
             hist.append({"op": "reuse", "shots": rng.randint(10, 500), "matrix": [[0.0, round(rng.random(), 3)], [0.0, 0.0]], "actor": rng.randrange(3)})
             hist[-1]["matrix"][1][0] = hist[-1]["matrix"][0][1]
@@ -499,7 +518,13 @@ def gen_history(rng: random.Random, profile: dict) -> list:
             continue
         if k == "construct":
             kind = G.wpick(rng, WEIGHTS)
-            hist.append({"op": "construct", "kind": kind, "spec": KINDS[kind][0](rng), "actor": rng.randrange(3)})
+            spec = KINDS[kind][0](rng)
+            prev = [h["spec"] for h in hist if h["op"] == "construct" and h.get("kind") == kind]
+            if prev and kind in ("layout", "detmap") and rng.random() < 0.4:
+                # a near-twin of an earlier object: same traps, other slug
+                spec = json.loads(json.dumps(prev[-1]))
+                spec["slug"] = None if spec.get("slug") else "alt-" + str(rng.randrange(100))
+            hist.append({"op": "construct", "kind": kind, "spec": spec, "actor": rng.randrange(3)})
             live += 1
         elif k == "restore":
             hist.append({"op": "restore", "pick": rng.random(), "actor": rng.randrange(3)})
@@ -661,6 +686,25 @@ def _step(i, op, pool, stats, viols) -> str:
     kind, obj, fp, spec = pool[j]
     if k == "drop":
         pool.pop(j)
+        return "ok"
+    if k == "mutate":
+        # applied to the first live virtual device at or after the pick
+        from pulser.devices import VirtualDevice
+
+        cand = [x for x in list(range(j, len(pool))) + list(range(j)) if pool[x][0] == "device" and isinstance(pool[x][1], VirtualDevice)]
+        if not cand:
+            return "skip"
+        j = cand[0]
+        dev = pool[j][1]
+        try:
+            dev.change_rydberg_level(op["level"])
+        except Exception as e:  # noqa: BLE001
+            stats[f"mutate_raised/{type(e).__name__}"] += 1
+            return "raised:" + type(e).__name__
+        op["_touched"] = j
+        stats["probe/device_mutated_in_place"] += 1
+        if dev.rydberg_level != op["level"]:
+            viols.append(Violation("C17/mutator", i, f"change_rydberg_level({op['level']}) left rydberg_level = {dev.rydberg_level}"))
         return "ok"
     if k == "use":
         try:
